@@ -3,7 +3,7 @@
    correspondence and the oracle; replies are decided by the oracle of the review harness). *)
 From Coq Require Import List NArith Bool Arith.
 Import ListNotations.
-From Adeu Require Import Str Doc Project DocOps Inst Engine EngineProofs.
+From Adeu Require Import Str Doc Prims Project DocOps Inst Engine EngineProofs AnchorProofs.
 
 (* attaching a (non-empty) comment adds EXACTLY ONE record: next free id, the session's author and date, the text *)
 Theorem C10_attach_one : forall e su eu c t,
@@ -36,3 +36,29 @@ Theorem C10_block_one_comment : forall e text anc cur c t sup,
     end.
 Proof. exact track_insert_one_comment. Qed.
 Print Assumptions C10_block_one_comment.
+
+(* anchored on the change: attaching is ONE uid-addressed anchor primitive applied to the whole document, with the elements the
+   edit created as its two ends (apply_indexed passes: first / last w:del of a deletion; first w:del and the w:ins of a
+   replacement; the w:ins of an insertion; the first / last created w:ins of a block insertion) ... *)
+Theorem C10_attach_is_anchor : forall e su eu c t,
+  e_doc (attach e su eu (c :: t)) =
+  upd_doc (anchor su eu (str_of_nat (e_next_c e)) (d_next_uid (e_doc e)) rpr_cref)
+    {| d_stories := d_stories (e_doc e); d_next_uid := S (d_next_uid (e_doc e));
+       d_comments := d_comments (e_doc e) ++ [{| c_id := str_of_nat (e_next_c e); c_author := e_author e; c_date := e_ts e; c_text := c :: t; c_parent := None |}] |}.
+Proof. reflexivity. Qed.
+Print Assumptions C10_attach_is_anchor.
+(* ... and in a node list where those two identities occur exactly once, that primitive puts the range start immediately before
+   the first element and the range end plus the reference run immediately after the last one: the range covers exactly the
+   revision marks the edit created and what lies between them *)
+Theorem C10_range_around : forall su eu cid ru rf pre n1 mid n2 post,
+  has_uid su n1 = true -> has_uid eu n1 = false -> has_uid eu n2 = true -> has_uid su n2 = false ->
+  Forall (fun n => mentions su n = false /\ mentions eu n = false) (pre ++ mid ++ post) ->
+  upd_l (anchor su eu cid ru rf) (pre ++ [n1] ++ mid ++ [n2] ++ post) =
+  pre ++ [NCrs cid; n1] ++ mid ++ [n2; NCre cid; NRun ru rf [CRef cid]] ++ post.
+Proof. exact anchor_range. Qed.
+Print Assumptions C10_range_around.
+Theorem C10_range_single : forall su cid ru rf pre n post, has_uid su n = true ->
+  Forall (fun x => mentions su x = false) (pre ++ post) ->
+  upd_l (anchor su su cid ru rf) (pre ++ [n] ++ post) = pre ++ [NCrs cid; n; NCre cid; NRun ru rf [CRef cid]] ++ post.
+Proof. exact anchor_single. Qed.
+Print Assumptions C10_range_single.
